@@ -1407,6 +1407,13 @@ where
           choice_validation_succeeded = true;
         }
 
+        // Prioritized choice: the first alternative that validates decides.
+        // Validating the remaining ones as well cannot change the result, and
+        // doubles the work per nesting level ([* ([* a] / [* a])])
+        if choice_validation_succeeded {
+          return Ok(());
+        }
+
         continue;
       }
 
